@@ -28,7 +28,12 @@ type cntWorld struct {
 }
 
 func newCntWorld(n int, h *ev.History, fee, aliasFee int64) *cntWorld {
-	c := chainkit.NewChain(theT, n, chainkit.Options{})
+	return newCntWorldV(n, 0, h, fee, aliasFee)
+}
+
+// newCntWorldV is newCntWorld on a chain whose consensus nodes are only the first v committee members (0 = all).
+func newCntWorldV(n, v int, h *ev.History, fee, aliasFee int64) *cntWorld {
+	c := chainkit.NewChain(theT, n, chainkit.Options{Validators: v})
 	fs := chainkit.NewFS(c, chainkit.FSOptions{
 		Contracts:    []string{"netmap", "balance", "neofsid", "container"},
 		NetmapConfig: []any{"ContainerFee", fee, "ContainerAliasFee", aliasFee},
